@@ -168,5 +168,178 @@ def error_model_units():
 
 
 def all_units():
-    return [u_check_flow_conservation()] + _unit("flowpaths/kflowdecomp.py", "kFlowDecomp", "paths", "get_solution_paths") + \
+    return u_is_valid_solution() + [u_check_flow_conservation()] + _unit("flowpaths/kflowdecomp.py", "kFlowDecomp", "paths", "get_solution_paths") + \
         _unit("flowpaths/kflowdecompcycles.py", "kFlowDecompCycles", "walks", "get_solution_walks")
+
+
+def u_is_valid_solution(relpath="flowpaths/kflowdecomp.py", cls="kFlowDecomp", route_key="paths"):
+    """kFlowDecomp.is_valid_solution on a cached solution of TWO routes of arbitrary length (the loops over the routes run natively, the loops over a route's edges and
+    over the graph's edges are cut): it answers True exactly when every non-ignored edge that carries a value differs from the summed weights of the routes through it
+    by at most tolerance x (number of traversals) - the tolerance form of C02's "explains every non-ignored edge's flow".  ValueError exactly when no solution is cached."""
+    from pyvc.heap import STuple
+    ESH = STuple(SInt, SInt)
+    st = {}
+    PNODE = z3.Function("route_node", INT, INT, INT)                   # (route, position)
+    TH = z3.Function("weight_through_edge_by_the_first_edges_of_route", INT, INT, INT, INT, REAL)      # (route, tail, head, number of route edges counted)
+    CN = z3.Function("traversals_of_edge_among_the_first_edges_of_route", INT, INT, INT, INT, INT)
+    EU, EV, FL = z3.Function("edge_tail", INT, INT), z3.Function("edge_head", INT, INT), z3.Function("edge_value", INT, REAL)
+    HASF, IGN, ISE = z3.Function("edge_has_a_value", INT, BOOL), z3.Function("edge_is_ignored", INT, INT, BOOL), z3.Function("is_edge", INT, INT, BOOL)
+    TOL = z3.RealVal("1/1000")
+
+    class PairMap:
+        def __init__(self, fn, dom): self.fn, self.dom = fn, dom
+        def __getitem__(self, k):
+            a, b = lift(k[0]), lift(k[1])
+            c = core.ctx()
+            c.prove("pre:dict-read-only-for-an-edge-of-the-graph", z3.Implies(z3.And(*c.qguards), self.dom(a, b)) if c.qguards else self.dom(a, b), kind="pre")
+            return Sym(self.fn(a, b))
+        def __setitem__(self, k, v):
+            a, b, v, of = lift(k[0]), lift(k[1]), lift(v), self.fn
+            v = z3.ToReal(v) if v.sort() == INT and self.real else v
+            self.fn = lambda x, y: z3.If(z3.And(x == a, y == b), v, of(x, y))
+        @classmethod
+        def fresh(cls, name, real):
+            c = core.ctx()
+            f = z3.Function(c.name(name), INT, INT, REAL if real else INT)
+            m = cls(lambda x, y: f(x, y), lambda x, y: ISE(x, y))
+            m.real = real
+            return m
+
+    def dictcomp(fn, it, flt):
+        which = st.setdefault("ndc", 0)
+        st["ndc"] = which + 1
+        real = which == 0                                   # first comprehension: flow_from_paths (reals), second: num_paths_on_edges (ints)
+        zero = z3.RealVal(0) if real else z3.IntVal(0)
+        m = PairMap(lambda x, y: zero, lambda x, y: ISE(x, y))
+        m.real = real
+        return m
+
+    def tot(a, b): return TH(0, a, b, st["len"][0]) + TH(1, a, b, st["len"][1])
+    def cnt(a, b): return CN(0, a, b, st["len"][0]) + CN(1, a, b, st["len"][1])
+    def counted(j): return z3.And(HASF(j), z3.Not(IGN(EU(j), EV(j))))
+    def within(j):
+        d = tot(EU(j), EV(j)) - FL(j)
+        return z3.And(d <= TOL * z3.ToReal(cnt(EU(j), EV(j))), -d <= TOL * z3.ToReal(cnt(EU(j), EV(j))))
+
+    def enter_route(ns, it=None):
+        if not isinstance(ns.get("flow_from_paths"), PairMap):
+            return                                   # concrete instance: the dicts are real dicts
+        st["r"] = st["route_no"]
+        st["route_no"] += 1
+        st["f0"], st["n0"] = ns["flow_from_paths"].fn, ns["num_paths_on_edges"].fn
+
+    def inv_route(ns, seq, done):
+        r, d = st["r"], lift(done)
+        a, b = z3.Ints("ra rb")
+        return {"after-the-first-edges-of-the-route:-flow_from_paths-grew-by-the-route's-weight-per-traversal,-num_paths_on_edges-by-one-per-traversal":
+                z3.ForAll([a, b], z3.And(ns["flow_from_paths"].fn(a, b) == st["f0"](a, b) + TH(r, a, b, d), ns["num_paths_on_edges"].fn(a, b) == st["n0"](a, b) + CN(r, a, b, d)))}
+
+    def inv_edges(ns, seq, done):
+        j = z3.Int("ej")
+        return {"every-counted-edge-seen-so-far-is-within-tolerance": z3.ForAll([j], z3.Implies(z3.And(j >= 0, j < lift(done), counted(j)), within(j)))}
+
+    def h(c, f):
+        st.clear()
+        st.update(route_no=0, ndc=0)
+        nE = c.fresh_const("n_edges", INT)
+        lens = [c.fresh_const("route_%d_edges" % r, INT) for r in (0, 1)]
+        ws = [c.fresh_const("weight_%d" % r, REAL) for r in (0, 1)]
+        st["len"] = lens
+        a, b, q, j, r_ = z3.Ints("ha hb hq hj hr")
+        c.assume(z3.And(nE >= 0, lens[0] >= 0, lens[1] >= 0))
+        for r in (0, 1):                                    # definitions of the ghost sums; route edges are edges of the graph (requires: the routes are routes of G)
+            c.assume(z3.ForAll([a, b], z3.And(TH(r, a, b, 0) == 0, CN(r, a, b, 0) == 0)))
+            hit = z3.And(PNODE(r, q) == a, PNODE(r, q + 1) == b)
+            c.assume(z3.ForAll([a, b, q], z3.Implies(q >= 0, z3.And(TH(r, a, b, q + 1) == TH(r, a, b, q) + z3.If(hit, ws[r], z3.RealVal(0)),
+                                                                      CN(r, a, b, q + 1) == CN(r, a, b, q) + z3.If(hit, 1, 0)))))
+            c.assume(z3.ForAll([q], z3.Implies(z3.And(q >= 0, q < lens[r]), ISE(PNODE(r, q), PNODE(r, q + 1)))))
+        c.assume(z3.ForAll([j], z3.Implies(z3.And(j >= 0, j < nE), ISE(EU(j), EV(j)))))
+
+        class Data:
+            def __init__(self, j): self.j = lift(j)
+            def sym_contains(self, k): return Sym(HASF(self.j))
+            def __contains__(self, k): return bool(self.sym_contains(k))
+            def __getitem__(self, k):
+                c.prove("pre:value-read-only-where-the-edge-has-one", HASF(self.j), kind="pre")
+                return Sym(FL(self.j))
+
+        class G:
+            @staticmethod
+            def edges(data=False):
+                if data:
+                    return SymSeq(nE, lambda q_: (Sym(EU(lift(q_))), Sym(EV(lift(q_))), Data(q_)), None, "edges(data)")
+                return SymSeq(nE, lambda q_: (Sym(EU(lift(q_))), Sym(EV(lift(q_)))), ESH, "edges")
+
+        class Ign:
+            def sym_contains(self, e): return Sym(IGN(lift(e[0]), lift(e[1])))
+            def __contains__(self, e): return bool(self.sym_contains(e))
+
+        class Me(Tracked):
+            pass
+        me = Me()
+        routes = [SymSeq(lens[r] + 1, (lambda r: (lambda q_: Sym(PNODE(r, lift(q_)))))(r), SInt, "route%d" % r) for r in (0, 1)]
+        me._solution = {route_key: routes, "weights": [Sym(ws[0]), Sym(ws[1])]}
+        me.G, me.flow_attr, me.edges_to_ignore = G, "flow", Ign()
+        res = f(me)
+        allok = z3.ForAll([j], z3.Implies(z3.And(j >= 0, j < nE, counted(j)), within(j)))
+        if res is True:
+            c.prove("post:True-only-if-every-counted-edge-is-explained-within-tolerance-x-traversals", allok, prop=P)
+        elif res is False:
+            c.prove("post:False-only-if-some-counted-edge-is-not-explained-within-tolerance-x-traversals", z3.Not(allok), prop=P)
+        else:
+            c.prove("post:the-answer-is-a-bool", False, prop=P)
+
+    def h_none(c, f):
+        class Me(Tracked):
+            pass
+        me = Me()
+        me._solution = None
+        try:
+            f(me)
+            c.prove("xpost:ValueError-when-no-solution-is-cached", False, prop=P, kind="xpost")
+        except ValueError:
+            c.prove("xpost:ValueError-when-no-solution-is-cached", True, prop=P, kind="xpost")
+
+    # ---- concrete instances: the same extracted body on small graphs with a cached solution; expected answer computed independently
+    CASES = [
+        ([("s", "a", 3), ("a", "t", 3)], [["s", "a", "t"]], [3], [], True),
+        ([("s", "a", 3), ("a", "t", 3)], [["s", "a", "t"]], [2], [], False),
+        ([("s", "a", 2), ("s", "b", 1), ("a", "t", 2), ("b", "t", 1)], [["s", "a", "t"], ["s", "b", "t"]], [2, 1], [], True),
+        ([("s", "a", 2), ("s", "b", 1), ("a", "t", 2), ("b", "t", 1)], [["s", "a", "t"], ["s", "b", "t"]], [2, 2], [("s", "b"), ("b", "t")], True),
+        ([("s", "a", 2), ("s", "b", 1), ("a", "t", 2), ("b", "t", 1)], [["s", "a", "t"], ["s", "b", "t"]], [2, 2], [("s", "b")], False),
+        ([("s", "a", 5), ("a", "b", 3), ("a", "c", 2), ("b", "t", 3), ("c", "t", 2)], [["s", "a", "b", "t"], ["s", "a", "c", "t"]], [3.0005, 2.0], [], True),
+        ([("s", "a", 5), ("a", "b", 3), ("a", "c", 2), ("b", "t", 3), ("c", "t", 2)], [["s", "a", "b", "t"], ["s", "a", "c", "t"]], [3.0025, 2.0], [], False),
+        ([("s", "a", 4), ("a", "t", 4)], [["s", "a", "t"], ["s", "a", "t"]], [1, 3], [], True),
+    ]
+
+    def instances():
+        out = []
+        for E, routes, ws, ign, want in CASES:
+            def hc(c, f, E=E, routes=routes, ws=ws, ign=ign, want=want):
+                import networkx
+                g = networkx.DiGraph()
+                for a, b, w in E:
+                    g.add_edge(a, b, flow=w)
+
+                class Me(Tracked):
+                    pass
+                me = Me()
+                me._solution = {route_key: [list(r) for r in routes], "weights": list(ws)}
+                me.G, me.flow_attr, me.edges_to_ignore = g, "flow", set(ign)
+                got = f(me)
+                c.prove("instance:the-answer-is-%s" % want, z3.BoolVal(got is want), prop=P, info=dict(got=str(got)))
+            out.append(("edges %s routes %s weights %s ignored %s" % (E, routes, ws, ign), hc))
+        return out
+
+    fmr = lambda old: PairMap.fresh("flow_from_paths", True)
+    fmi = lambda old: PairMap.fresh("num_paths_on_edges", False)
+    # loops in source order: 0 = over (weight, route) [native: concrete zip], 1 = over the edges of a route [cut], 2 = over the graph's edges [cut]
+    loops = {1: dict(inv=inv_route, prop=P, on_entry=enter_route, havoc={"flow_from_paths": fmr, "num_paths_on_edges": fmi}),
+             2: dict(inv=inv_edges, prop=P, keep=("u", "v", "data"))}
+    g = dict(utils=UtilsStub)
+    return [Unit(relpath, cls + ".is_valid_solution", h, globs=g, loops=loops, props=[P], literals=dict(dictcomp=dictcomp), instances=instances,
+                 name="%s:%s.is_valid_solution[two routes]" % (relpath, cls),
+                 assumptions=["requires: the cached routes are routes of the graph (consecutive nodes are edges); default tolerance 0.001",
+                              "two routes of arbitrary length (the number of routes is fixed in this contract; the loops over a route and over the graph's edges are unbounded)"],
+                 abstractions=["the two dicts are functions on the edges of the graph; the weight / number of traversals through an edge are ghost prefix sums along each route"]),
+            Unit(relpath, cls + ".is_valid_solution", h_none, globs=g, props=[P], name="%s:%s.is_valid_solution[no solution]" % (relpath, cls))]
